@@ -7,7 +7,9 @@ import (
 	"math/rand"
 	"os"
 	"runtime"
+	"sort"
 	"sync"
+	"sync/atomic"
 	"time"
 
 	"github.com/biogo/hts/bgzf"
@@ -517,6 +519,131 @@ func RunConc(out string) {
 			id := 0
 			if ex {
 				id = int(next%1000) - 1
+			}
+			peek = append(peek, []interface{}{base, ex, id})
+		}
+		t.Ev("final", tr.M{"len": c.Len(), "cap": c.Cap(), "peek": peek})
+	}
+	// race family: a shrinking Resize against Puts of used blocks with new bases on a full
+	// cache, and Drop against Put/Get - the windows in which a non-atomic operation shows
+	nrace := 3000
+	if tr.Tier() == "thorough" {
+		nrace = 20000
+	}
+	for i := 0; i < nrace; i++ {
+		policy := []string{"LRU", "FIFO", "Random"}[i%3]
+		capN := 3 + rnd.Intn(2)
+		c := newCache(policy, capN)
+		nb := capN + 3
+		var bl [][]interface{}
+		var blocks []bgzf.Block
+		rbases := []int64{1000, 2000, 3000}
+		for j := 0; j < nb; j++ {
+			base := rbases[j%3] + int64(j/3)*3000 // distinct bases: 1000,2000,3000,4000,...
+			bl = append(bl, []interface{}{base, true})
+			blocks = append(blocks, bgzf.VerifNewBlock(base, 1+j+1, true))
+		}
+		var allBases []int64
+		for j := 0; j < nb; j++ {
+			allBases = append(allBases, blocks[j].Base())
+		}
+		t.Begin(policy+"/race", tr.M{"policy": policy, "cap": capN, "bases": allBases, "blocks": bl, "G": 3})
+		var mu sync.Mutex
+		logEv := func(ev string, m tr.M) {
+			mu.Lock()
+			t.Ev(ev, m)
+			mu.Unlock()
+		}
+		idOf := func(b bgzf.Block) int {
+			if b == nil {
+				return 0
+			}
+			for k, x := range blocks {
+				if x == b {
+					return k + 1
+				}
+			}
+			return -1
+		}
+		// fill the cache (goroutine 1, sequentially)
+		for j := 1; j <= capN; j++ {
+			logEv("call", tr.M{"g": 1, "op": "put", "id": j})
+			ev, ret := c.Put(blocks[j-1])
+			logEv("ret", tr.M{"g": 1, "op": "put", "evid": idOf(ev), "ret": ret})
+		}
+		// the racing part records its events with a global atomic sequence number and no
+		// lock (a logging mutex would serialise exactly the window that is being probed)
+		type sev struct {
+			seq int64
+			ev  string
+			m   tr.M
+		}
+		var seq int64
+		evs := make([][]sev, 4)
+		rec := func(g int, ev string, m tr.M) {
+			evs[g] = append(evs[g], sev{atomic.AddInt64(&seq, 1), ev, m})
+		}
+		var ready, gate int32
+		var wg sync.WaitGroup
+		shrink := 1 + rnd.Intn(capN-1)
+		spin := func() {
+			atomic.AddInt32(&ready, 1)
+			for atomic.LoadInt32(&gate) == 0 {
+			}
+		}
+		res := watch.Call(marker, func() {
+			wg.Add(3)
+			go func() {
+				defer wg.Done()
+				spin()
+				if i%3 != 2 {
+					rec(1, "call", tr.M{"g": 1, "op": "resize", "n": shrink})
+					c.Resize(shrink)
+					rec(1, "ret", tr.M{"g": 1, "op": "resize"})
+				} else {
+					rec(1, "call", tr.M{"g": 1, "op": "drop", "n": shrink})
+					c.Drop(shrink)
+					rec(1, "ret", tr.M{"g": 1, "op": "drop"})
+				}
+			}()
+			for g := 2; g <= 3; g++ {
+				go func(g int) {
+					defer wg.Done()
+					id := capN + g - 1
+					spin()
+					rec(g, "call", tr.M{"g": g, "op": "put", "id": id})
+					ev, ret := c.Put(blocks[id-1])
+					rec(g, "ret", tr.M{"g": g, "op": "put", "evid": idOf(ev), "ret": ret})
+					rec(g, "call", tr.M{"g": g, "op": "len"})
+					l := c.Len()
+					rec(g, "ret", tr.M{"g": g, "op": "len", "n": l})
+				}(g)
+			}
+			for atomic.LoadInt32(&ready) < 3 {
+				runtime.Gosched()
+			}
+			atomic.StoreInt32(&gate, 1)
+			wg.Wait()
+		})
+		// merge by sequence number
+		var all []sev
+		for _, e := range evs {
+			all = append(all, e...)
+		}
+		sort.Slice(all, func(a, b int) bool { return all[a].seq < all[b].seq })
+		for _, e := range all {
+			t.Ev(e.ev, e.m)
+		}
+		if res.Res != "ok" {
+			logEv("abort", tr.M{"res": res.Res, "sig": policy + "/race/" + res.Res, "detail": res.Detail})
+			continue
+		}
+		var peek [][]interface{}
+		for _, base := range allBases {
+			ex, next := c.Peek(base)
+			id := 0
+			if ex {
+				id = int(next-base) - 1
 			}
 			peek = append(peek, []interface{}{base, ex, id})
 		}
